@@ -21,11 +21,16 @@ Aliases == [ k \in {"source", "input_format", "repo_path", "verbose", "format"} 
 \* kw = [name (STRING), text (code points), bool (BOOLEAN)]
 OptionOf(kw) == IF kw.name \in DOMAIN Aliases THEN Aliases[kw.name] ELSE <<DASH, DASH>> \o Dashed(kw.text)
 
-\* value classes: "none", "false", "true", "zero", "valid"
+\* value classes: "none", "false", "true", "zero", "valid", "empty" (the empty string) and "hostile"
+\* (a text with a leading dash, a space, a non-ASCII letter and a newline): both are "any other
+\* value" and must be passed on as they are - the wrapper is not the place to drop or quote them
+Hostile == <<45, 233, 32, 120, 10, 121>>
 Contribution(kw, vclass, valid) ==
   CASE vclass \in {"none", "false"} -> <<>>
     [] vclass = "true"  -> <<OptionOf(kw)>>
     [] vclass = "zero"  -> <<OptionOf(kw), <<48>>>>
+    [] vclass = "empty" -> <<OptionOf(kw), <<>>>>
+    [] vclass = "hostile" -> <<OptionOf(kw), Hostile>>
     [] vclass = "valid" -> IF kw.bool THEN <<OptionOf(kw)>> ELSE <<OptionOf(kw), valid>>
 \* _extend_args as a machine over the (keyword, value) list
 RECURSIVE ExtendArgs(_, _)
